@@ -12,6 +12,9 @@ ASSUMPTIONS = ['types conformance and dispatch conformance are finite computatio
 
 def run(ctx, ps, gen_bad):
     n = 12 if ctx.quick else 400
+    if ps and ps.get('broken'):
+        # a conformance obligation no longer holds: search harder for a concrete value / byte string
+        n = max(n, 120)
     trace = os.path.join(ctx.work, 'xdr.trace')
     rc, o, e = vlib.harness(['xdr', '-seed', str(ctx.seed), '-n', str(n), '-out', trace], timeout=1800)
     fails = []
